@@ -6,6 +6,7 @@ use serde_json::Value;
 pub mod c01;
 pub mod c02;
 pub mod c03;
+pub mod c04;
 pub mod c08;
 pub mod c09;
 pub mod c15;
@@ -22,6 +23,7 @@ pub const TABLE: &[(&str, RunFn, ReplayFn)] = &[
     ("C01", c01::run, c01::replay),
     ("C02", c02::run, c02::replay),
     ("C03", c03::run, c03::replay),
+    ("C04", c04::run, c04::replay),
     ("C08", c08::run, c08::replay),
     ("C09", c09::run, c09::replay),
     ("C15", c15::run, c15::replay),
